@@ -4,4 +4,5 @@ INVARIANT Sorted
 INVARIANT NoInvalidStart
 INVARIANT Judge
 INVARIANT Done
+INVARIANT WallJudge
 CHECK_DEADLOCK FALSE
